@@ -82,14 +82,19 @@ structure Cnt (s : State) : Prop where
   cntEq : s.scount = cntF s.dec s.nextH
   c3 : s.st = .empty → s.scount = 0 → s.closer ≠ none
 
-/-- D6: where `Disconnected` comes from -/
+/-- D6: where `Disconnected` comes from (after fix a886a91 a failed CAS EMPTY→CLOSED that finds SENT / WRITING
+makes the receiver look again, so `Disconnected` is only answered from a closed receiver handle or from
+state CLOSED / TAKEN) -/
 structure D6 (s : State) : Prop where
   dA : (s.loc .R).m = .pLdCountA → s.st = .taken ∨ s.st = .closed
   dU : (s.loc .R).m = .tUnlock → ∃ v, (s.loc .R).res = .okV v
-  dD : s.discRace = false → ((s.loc .R).m = .ret .disc ∨ Res.disc ∈ s.results .R) →
+  dD : ((s.loc .R).m = .ret .disc ∨ Res.disc ∈ s.results .R) →
         s.closed .R = true ∨ s.st = .closed ∨ s.st = .taken
-  dN : s.discRace = false → Res.disc ∈ s.results .R → (s.loc .R).m ≠ .tCasST ∧ (s.loc .R).m ≠ .tLock
+  dN : Res.disc ∈ s.results .R → (s.loc .R).m ≠ .tCasST ∧ (s.loc .R).m ≠ .tLock
   rciSt : s.rClosedIt = true → s.st = .closed
+  tkRd : ∀ b, s.taker = some b → b = .R ∨ s.rdrop = true
+  ciR : ((s.loc .R).m = .ciStRdrop ∨ (s.loc .R).m = .ciCasEC ∨ (s.loc .R).m = .ciCasST ∨ (s.loc .R).m = .xLock ∨
+         (s.loc .R).m = .xUnlock) → s.closed .R = true
 
 /-- E7: a receive called when nothing was sent and nothing can be (no closed handle is ever cloned) -/
 structure E7 (s : State) : Prop where
